@@ -326,6 +326,10 @@ FORMATS = [['{prefix}', '{j}'], ['{prefix}', '{i}'], ['x', '{i}'], ['v', '{j}'],
 
 def check_C10(c):
     c.mc('MC_Relabel', _q(c, 'MC_Relabel_q.cfg', 'MC_Relabel_t.cfg'), workers=8, heap='6g')
+    if c.tier == 'thorough':
+        # unbounded in the names and in the number of candidates tried: the naming loop keeps the map injective (Apalache)
+        from . import tlc as _tlc
+        c.mc_runs.append(_tlc.apalache_inductive('Apa_Relabel', goal='Bijection', timeout=1500))
     jobs = []
     trees = _corpus_trees()
     cfgs = [gen.TreeCfg(wellformed=True, p_concept_is_var=0.3, p_aln=0.3, p_reent=0.4),
